@@ -1281,6 +1281,33 @@ fn main() {
             eprintln!("FAULT-CASE-KEY faults/{k}");
         }
     }
+    // ---- region-local alternative-witness search (vgad::laws) on the operand tuples chosen for
+    // the fault phase: every set of <= 3 lookup rows of a region (limb and quotient range checks)
+    // answered with a neighbouring row of the actual table, gates repaired through free affine
+    // cells, copy constraints pinning, survivors replayed on the real circuit and judged by the
+    // reference. Thorough tier only (the quick tier has no room for it).
+    {
+        let lcases: Vec<(String, Case)> = chosen
+            .iter()
+            .enumerate()
+            .filter(|_| tier.is_thorough())
+            .map(|(_, (key, c, _))| (format!("{key}#laws"), (*c).clone()))
+            .collect();
+        let cfg = vgad::laws::Cfg { max_combinations: 100_000, max_real_runs: 4, ..Default::default() };
+        let max_regions = 32usize;
+        cpu_marks.push(("laws", cpu_s()));
+        cx.run_cases("laws", &lcases, |c| {
+            let mut out = CaseOut::batch();
+            fops::NONCANON_SEEN.with(|x| x.set(0));
+            match kof(c) {
+                Some(k) if k <= 12 => {
+                    vgad::laws::explore_all(c, k, &cfg, max_regions, &mut out);
+                }
+                _ => out.count("laws:skipped-large-circuit", 1),
+            }
+            out
+        });
+    }
     cpu_marks.push(("faults", cpu_s()));
     cx.run_cases("faults", &fcases, |(c, idxs, faults)| {
         let mut out = CaseOut::batch();
